@@ -886,6 +886,31 @@ func (v *Verifier) runPartition(pkg *ssa.Package, fn *ssa.Function, c *Contract,
 	for _, r := range c.Requires {
 		st.pc = F.And(st.pc, se.evalBool(r))
 	}
+	// a precondition "x == k" for an entry variable x and a constant k (len(_z) == 0) is applied to the entry state
+	// itself, so that branches it decides are not explored
+	{
+		def := map[*Term]*Term{}
+		for _, cj := range conjuncts(st.pc) {
+			if cj.Op == OEq && cj.Args[0].S == SInt {
+				for i := 0; i < 2; i++ {
+					if x, k := cj.Args[i], cj.Args[1-i]; x.Op == OVar && k.Op == OConst && def[x] == nil {
+						def[x] = k
+					}
+				}
+			}
+		}
+		if len(def) > 0 {
+			for o, val := range st.mem {
+				st.mem[o] = substValue(F, val, def)
+			}
+			for k, val := range env {
+				env[k] = substValue(F, val, def)
+			}
+			for k, val := range fr.params {
+				fr.params[k] = substValue(F, val, def)
+			}
+		}
+	}
 	// vacuity probe: the precondition must be satisfiable
 	probe := &Obligation{Name: fr.oblName("vacuity:requires"), Kind: "vacuity", Func: fr.fname, Part: p.label,
 		Hyps: append(append([]*Term(nil), v.initFacts...), st.pc), Goal: F.False(), Abstract: v.abstractProducts, MustFail: true, Spec: "requires is satisfiable"}
@@ -975,6 +1000,7 @@ func (v *Verifier) postObligations(fr *Frame, pkg *ssa.Package, fn *ssa.Function
 				ret = wrapTyped(ret, rs.At(0).Type())
 			}
 			vars["result"] = ret
+			vars["retval"] = ret // the same, for functions that have a local variable named result
 			if rs.Len() == 1 {
 				if n := rs.At(0).Name(); n != "" && n != "_" {
 					if _, clash := vars[n]; !clash {
